@@ -298,11 +298,12 @@ static void op_isal(World &W, const Json &op) {
     isal_stub_ctl_t *c = isal_ctl();
     if (!c) { W.probe("unreached.isal-stub-ctl"); return; }
     if (op.has("clobber")) c->clobber_input = op["clobber"].in();
-    if (op.has("layout")) { c->layout = op["layout"].in() & 1; }
+    // the table layout is a per-run constant (plan["isal"]): tables built under one layout must not be used under another
     if (op.has("fail_at")) { c->fail_invert_at = op["fail_at"].in(); if (c->fail_invert_at > 0) W.fault("ISAL_INVERT_FAIL.armed"); }
     W.fault("ISAL_KNOBS");
 }
 void isal_reset() { isal_stub_ctl_t *c = isal_ctl(); if (c) { c->clobber_input = 1; c->layout = 0; c->fail_invert_at = 0; } }
+void isal_set_knobs(int clobber, int layout) { isal_stub_ctl_t *c = isal_ctl(); if (c) { c->clobber_input = clobber & 1; c->layout = layout & 1; } }
 long isal_injected_failures() { isal_stub_ctl_t *c = isal_ctl(); return c ? c->n_fail_inj : 0; }
 
 static void op_destroy_dead(World &W, const Json &op) {
@@ -315,7 +316,69 @@ static void op_destroy_dead(World &W, const Json &op) {
     if (rc >= 0) W.viol("C14 C13", "instance_destroy/dead-descriptor-accepted", "destroy of descriptor " + std::to_string(d) + " that is not live returned " + std::to_string(rc));
 }
 
+// Many simultaneous instances: create n, optionally move the descriptor counter to just below INT_MAX part-way, destroy
+// all but a few (oldest / newest / every other first), then drive the survivors through a round trip.
+static void op_mass(World &W, const Json &op) {
+    int n = op["n"].in(100), keep = op["keep"].in(4);
+    Cfg c; c.be = op["be"].in(EC_BACKEND_LIBERASURECODE_RS_VAND); c.k = op["k"].in(4); c.m = op["m"].in(2); c.hd = op["hd"].in(c.m); c.ct = 2;
+    struct ec_args a; memset(&a, 0, sizeof a); a.k = c.k; a.m = c.m; a.hd = c.hd; a.ct = (ec_checksum_type_t) c.ct;
+    std::vector<int> ds;
+    int wrap_at = op["wrap_at"].in(-1);
+    cur().api = "instance_create(mass)";
+    for (int i = 0; i < n; i++) {
+        if (i == wrap_at && &next_backend_desc) { next_backend_desc = INT_MAX - op["back"].in(2); W.fault("DESC_COUNTER_PRESET"); }
+        int d = liberasurecode_instance_create((ec_backend_id_t) c.be, &a);
+        if (d <= 0) { W.viol("C14 C13", "mass/create-failed", "create number " + std::to_string(i) + " of " + std::to_string(n) + " simultaneous instances returned " + std::to_string(d)); break; }
+        if (W.live_descs.count(d)) { W.viol("C14", "descriptor-not-unique", "create returned live descriptor " + std::to_string(d) + " (instance " + std::to_string(i) + " of " + std::to_string(n) + ")"); }
+        W.live_descs.insert(d); W.dead_descs.erase(d); ds.push_back(d);
+    }
+    W.fault("MANY_INSTANCES");
+    W.trace.add("mass.created", (i64) ds.size());
+    // destroy order
+    std::vector<int> order;
+    int mode = op["order"].in(0);
+    if (mode == 0) order = ds;                                               // oldest first
+    else if (mode == 1) order.assign(ds.rbegin(), ds.rend());                // newest first
+    else { for (size_t i = 0; i < ds.size(); i += 2) order.push_back(ds[i]); for (size_t i = 1; i < ds.size(); i += 2) order.push_back(ds[i]); }
+    size_t ndestroy = ds.size() > (size_t) keep ? ds.size() - keep : 0;
+    cur().api = "instance_destroy(mass)";
+    std::set<int> gone;
+    for (size_t i = 0; i < ndestroy; i++) {
+        int rc = liberasurecode_instance_destroy(order[i]);
+        if (rc != 0) { W.viol("C14", "destroy-live-failed", "destroy of live descriptor " + std::to_string(order[i]) + " returned " + std::to_string(rc)); }
+        W.live_descs.erase(order[i]); W.dead_descs.insert(order[i]); gone.insert(order[i]);
+    }
+    // survivors must be fully functional
+    std::vector<u8> data((size_t) op["len"].in(200)); Rng r(77); for (auto &b : data) b = (u8) r.next();
+    for (int d : ds) {
+        if (gone.count(d)) continue;
+        char *in = (char *) thread_arena().place(data.data(), data.size(), Arena::RIGHT);
+        char **ed = nullptr, **ep = nullptr; u64 fl = 0;
+        cur().api = "encode(survivor)";
+        int rc = liberasurecode_encode(d, in, data.size(), &ed, &ep, &fl);
+        if (rc != 0) { W.viol("C14", "mass/survivor-encode-failed", "rc=" + std::to_string(rc)); }
+        else {
+            std::vector<char *> fr;   // lose data fragment 0 so that real decoding happens
+            for (int i = 1; i < c.k + c.m; i++) fr.push_back(i < c.k ? ed[i] : ep[i - c.k]);
+            char *out = nullptr; u64 ol = 0;
+            cur().api = "decode(survivor)";
+            int dr = (c.m > 0 && c.be != EC_BACKEND_NULL) ? liberasurecode_decode(d, fr.data(), (int) fr.size(), fl, 0, &out, &ol) : 0;
+            if (c.m > 0 && c.be != EC_BACKEND_NULL) {
+                if (dr != 0 || ol != data.size() || (ol && memcmp(out, data.data(), ol))) W.viol("C14", "mass/survivor-roundtrip-failed", "a surviving instance no longer round-trips after its siblings were destroyed (rc=" + std::to_string(dr) + ")");
+                if (dr == 0) liberasurecode_decode_cleanup(d, out);
+            }
+            liberasurecode_encode_cleanup(d, ed, ep);
+        }
+        thread_arena().release_all();
+        int rc2 = liberasurecode_instance_destroy(d);
+        if (rc2 != 0) W.viol("C14", "destroy-live-failed", "destroy of surviving descriptor returned " + std::to_string(rc2));
+        W.live_descs.erase(d); W.dead_descs.insert(d);
+    }
+    W.probe("mass.done");
+}
+
 void exec_op_misc(World &W, const Json &op, const std::string &kind) {
+    if (kind == "MASS") { op_mass(W, op); return; }
     if (kind == "BADCALL") op_badcall(W, op);
     else if (kind == "CYCLE") op_cycle(W, op);
     else if (kind == "CANARY") op_canary(W, op);
